@@ -142,19 +142,24 @@ func (w *walker) walk(v reflect.Value, depth int) {
 		}
 		w.seen[k] = len(w.seen)
 		w.mix(uint64(v.Len()) + 16)
-		// order-independent: hash every entry with a sub-walker that shares the seen set, then sort
-		var hs []uint64
+		// deterministic order: entries sorted by the content hash of their key (computed with a
+		// fresh walker, so it does not depend on what was visited before), then walked in that order
+		type entry struct {
+			kh   uint64
+			k, v reflect.Value
+		}
+		var es []entry
 		it := v.MapRange()
 		for it.Next() {
-			sub := &walker{seen: w.seen, nodes: w.nodes}
-			sub.walk(it.Key(), depth+1)
-			sub.walk(it.Value(), depth+1)
-			w.nodes = sub.nodes
-			hs = append(hs, sub.h)
+			kw := &walker{seen: map[seenKey]int{}}
+			kw.walk(it.Key(), 0)
+			w.nodes += kw.nodes
+			es = append(es, entry{kw.h, it.Key(), it.Value()})
 		}
-		sort.Slice(hs, func(i, j int) bool { return hs[i] < hs[j] })
-		for _, h := range hs {
-			w.mix(h)
+		sort.Slice(es, func(i, j int) bool { return es[i].kh < es[j].kh })
+		for _, e := range es {
+			w.mix(e.kh)
+			w.walk(e.v, depth+1)
 		}
 	case reflect.Struct:
 		for i := 0; i < v.NumField(); i++ {
